@@ -156,6 +156,9 @@ func (fr *Frame) callStatic(site ssa.Instruction, fn *ssa.Function, args []*Term
 	if fc == nil {
 		fc = vc.eng.db.funcs[stripTypeParams(name)]
 	}
+	if fc != nil && fr.mode != nil && fr.mode.Safety && !fc.Reflective && fc.Kind == "func" && len(fn.Blocks) > 0 && fr.depth < 5 && !fr.onStack(fn) && !hasLoops(fn) && !fc.Opaque {
+		fc = nil // safety sweep: look inside (loop-free) callees instead of trusting their preconditions
+	}
 	if fc != nil {
 		var names []string
 		var tys []types.Type
@@ -167,6 +170,20 @@ func (fr *Frame) callStatic(site ssa.Instruction, fn *ssa.Function, args []*Term
 		if o, ok := fn.Object().(*types.Func); ok {
 			obj = o
 		}
+		// type parameters of a generic callee are visible to its contract under their declared names
+		saved := vc.tparams
+		if org := fn.Origin(); org != nil && org.TypeParams().Len() == len(fn.TypeArgs()) {
+			vc.tparams = map[string]types.Type{}
+			for i := 0; i < org.TypeParams().Len(); i++ {
+				vc.tparams[org.TypeParams().At(i).Obj().Name()] = fn.TypeArgs()[i]
+			}
+		} else if fn.TypeParams().Len() > 0 {
+			vc.tparams = map[string]types.Type{}
+			for i := 0; i < fn.TypeParams().Len(); i++ {
+				vc.tparams[fn.TypeParams().At(i).Obj().Name()] = fn.TypeParams().At(i)
+			}
+		}
+		defer func() { vc.tparams = saved }()
 		return fr.applyContract(fc, site, obj, fn.Signature, names, tys, args, st)
 	}
 	// inline in-repo code without contract
@@ -183,6 +200,26 @@ func (fr *Frame) callStatic(site ssa.Instruction, fn *ssa.Function, args []*Term
 	var cc ssa.CallCommon
 	cc.Value = fn
 	return fr.unknownCall(&cc, st)
+}
+
+func (fr *Frame) onStack(fn *ssa.Function) bool {
+	for f := fr; f != nil; f = f.parent {
+		if f.fn == fn {
+			return true
+		}
+	}
+	return false
+}
+
+func hasLoops(fn *ssa.Function) bool {
+	for _, b := range fn.Blocks {
+		for _, s := range b.Succs {
+			if s.Dominates(b) {
+				return true
+			}
+		}
+	}
+	return false
 }
 
 func (fr *Frame) inline(site ssa.Instruction, fn *ssa.Function, args []*Term, binds []*Term, st *State) []*Term {
@@ -290,7 +327,24 @@ func (fr *Frame) applyContract(fc *FuncContract, site ssa.Instruction, obj *type
 		tv := fr.safeEval(ctx, l.Body)
 		binds[l.Name] = Binding{term: tv.t, typ: tv.typ, g: tv.g}
 	}
+	if fr.mode != nil && fr.mode.Safety {
+		// safety sweep: the callee is checked as its own root under its object invariants ("assumes");
+		// those are the only preconditions a caller has to establish
+		for _, c := range fc.Assumes {
+			g := mk(pre).evalBool(c.Expr, c)
+			lbl := c.Label
+			if lbl == "" {
+				lbl = fmt.Sprintf("L%d", c.Line)
+			}
+			name := fmt.Sprintf("call-pre#%s@%s->%s#%d", lbl, shortFn(fr.topFn()), shortType(fc.Target), fr.callOrdinal(site))
+			vc.oblige("call-pre", name, []string{"C05"}, st.guard, g, pos, c.Src)
+			vc.assume(st.guard, g)
+		}
+	}
 	for _, c := range fc.Requires {
+		if fr.mode != nil && fr.mode.Safety {
+			break
+		}
 		g := mk(pre).evalBool(c.Expr, c)
 		lbl := c.Label
 		if lbl == "" {
@@ -356,6 +410,12 @@ func (fr *Frame) applyContract(fc *FuncContract, site ssa.Instruction, obj *type
 		}
 	}
 	for _, c := range fc.Ensures {
+		if fr.mode != nil && fr.mode.Safety && fc.Kind == "func" && !fc.Reflective && !(hasProp(c.Props, "C05") && fc.SafetyRoot) && !(fc.Trusted && len(fc.Requires) == 0) {
+			// safety sweep: the postconditions were proved under preconditions that are not required here
+			// (those tagged C05 are proved by the sweep itself under the object invariants alone; those of a
+			// trusted contract without preconditions are assumptions everywhere and listed as such)
+			continue
+		}
 		vc.assume(st.guard, mk(st).evalBool(c.Expr, c))
 	}
 	for _, c := range fc.Defines_ {
